@@ -157,6 +157,9 @@ def build_prior(case):
             pars_in = None  # documented: the parameters are then taken from the model's named variables
         elif case.get("pars_as") == "number":
             pars_in = 42
+        elif case.get("pars_as") in ("empty_dict", "empty_list", "empty_tuple"):
+            # an explicitly EMPTY collection names no parameter at all (the model holding suitable variables does not change that)
+            pars_in = {"empty_dict": {}, "empty_list": [], "empty_tuple": ()}[case["pars_as"]]
         else:
             pars_in = pars
         if case.get("offsets_as") == "number":
@@ -240,6 +243,12 @@ def check_default(case, part):
         kw["P0"] = 100 * u.day
     elif mut == "sigma_v_dict":
         kw["sigma_v"] = {f"v{i}": 10 * u.km / u.s / u.day**i for i in range(case["poly_trend"])}
+    elif mut == "sigma_v_list_nounit":
+        kw["sigma_v"] = [100.0, 0.5][: case["poly_trend"]]
+    elif mut == "sigma_v_dict_nounit":
+        kw["sigma_v"] = {f"v{i}": 10.0 for i in range(case["poly_trend"])}
+    elif mut == "sigma_v_last_nounit":
+        kw["sigma_v"] = ([100 * u.km / u.s, 0.5] if case["poly_trend"] == 2 else [100.0])
     try:
         with pm.Model():
             prior = tj.JokerPrior.default(**kw)
@@ -473,6 +482,8 @@ def build_cases(quick):
         for pars_as in ("dict", "list", "tuple", "model"):
             cases.append(dict(kind="prior", poly_trend=pt_, n_offsets=no, mut=[], accept=True, pars_as=pars_as))
         cases.append(dict(kind="prior", poly_trend=pt_, n_offsets=no, mut=[], accept=False, pars_as="number"))
+        for pa in ("empty_dict", "empty_list", "empty_tuple"):
+            cases.append(dict(kind="prior", poly_trend=pt_, n_offsets=no, mut=[], accept=False, pars_as=pa))
         cases.append(dict(kind="prior", poly_trend=pt_, n_offsets=no, mut=[], accept=False, offsets_as="number"))
         cases.append(dict(kind="prior", poly_trend=pt_, n_offsets=no, mut=[], accept=False, model_as="string"))
         # every single mutilation again with the parameters handed over as a list / taken from the model
@@ -503,7 +514,8 @@ def build_cases(quick):
                     cases.append(dict(kind="prior", poly_trend=pt_, n_offsets=no, mut=[m1, m2], accept=False))
     for pt_ in (1, 2):
         for mut in (None, "no_P_min", "no_P_max", "no_sigma_K0", "no_sigma_v", "sigma_v_short", "P_min_bad_unit", "sigma_K0_bad_unit",
-                    "s_bad_unit", "s_no_unit", "P0_bad_unit", "P_yr", "sigma_K0_ms", "s_ms", "P0_day", "sigma_v_dict"):
+                    "s_bad_unit", "s_no_unit", "P0_bad_unit", "P_yr", "sigma_K0_ms", "s_ms", "P0_day", "sigma_v_dict",
+                    "sigma_v_list_nounit", "sigma_v_dict_nounit", "sigma_v_last_nounit"):
             cases.append(dict(kind="default", poly_trend=pt_, mutd=mut))
     for no in (0, 1, 2):
         for form in ("bare", "bare_cov", "number", "string", "none", "empty_list"):
